@@ -46,3 +46,12 @@ package s2
 //@   requires 0 <= exponent && exponent <= 10
 //@   ensures [exponent] result.exponent == exponent
 //@   ensures [radius] vcSame(result.snapRadius, result.minSnapRadiusForExponent(result.exponent))
+
+// A point snapped to the centre of its level-L cell moves by at most half the longest diagonal of a level-L cell, so the
+// minimum snap radius must be derived from the maximum-diagonal metric (plus the 4*eps conversion error), and the
+// inverse (largest cells for a given radius) from the same metric. The metric values themselves are numerical.
+//@ func (sf CellIDSnapper) minSnapRadiusForLevel(level int) s1.Angle
+//@   ensures [half-max-diagonal] vcSame(result, s1.Angle(0.5*MaxDiagMetric.Value(level) + 4*dblEpsilon))
+
+//@ func (sf CellIDSnapper) levelForMaxSnapRadius(snapRadius s1.Angle) int
+//@   ensures [max-diagonal-inverse] result == MaxDiagMetric.MinLevel(2 * (snapRadius.Radians() - 4*dblEpsilon))
